@@ -33,7 +33,15 @@ def budget (maxIter : Nat) : Nat := ((maxIter : Int) + Gen.C05.range_stop_offset
 def loggedIndex (n : Nat) : Int := Gen.C05.range_start + (n : Int) - 1
 
 /-- `init_solve` re-uses an existing out profile (true) or always creates a new one (false) -/
-def reusesOut : Bool := Gen.C05.loop_shape.outProfile = "create-if-absent"
+def reusesOut : Bool :=
+  Gen.C05.loop_shape.outProfile = "create-if-absent" || Gen.C05.loop_shape.outProfile = "create-if-absent-else-hand-over"
+
+/-- `init_solve` brings a re-used out profile up to date with the incoming profile (the `else:` branch) -/
+def handsOver : Bool := Gen.C05.loop_shape.outProfile = "create-if-absent-else-hand-over"
+
+/-- public entries of the out profile after `init_solve` (`none`: there was no out profile) -/
+def initOut (roots : List String) (out : Option Entries) (tmpl : Entries) : Entries :=
+  if reusesOut then Solve.initOut handsOver roots out tmpl else tmpl
 
 /-- `Unit.solve(in_profile)` of a unit with `max_iteration_count = maxIter`, `iteration_precision = prec` -/
 def solve (step : S → S × Except Exc (List α)) (maxIter : Nat) (prec : α) (c : Carried α S) : Result α S :=
